@@ -426,7 +426,7 @@ def rule_scan_covers_words(ctx, R="C20/scan-covers-words"):
     ctx.check(not bad, R, "bound", b.where(x), "the scan continues iff offset + 8 <= stack_copy.len(): every whole word up to the end of the copy is examined (28 points)",
               "the scan does not examine exactly the words that fit: %s" % "; ".join(bad[:4]))
     # initial offset: sp_offset rounded up to a multiple of the word size
-    offs = [a for a in (core(atom[2]), core(atom[3])) if is_off(a)]
+    offs = [q for side in (core(atom[2]), core(atom[3])) for q in walk(side) if isinstance(q, tuple) and q and is_off(q)]
     init = None
     if offs:
         def leaves_(e):
